@@ -10,7 +10,7 @@
    window_is_lastn and check_schedule_sound.  What stays outside Coq: that rex's own Python to_graph/apply_window/supergraph code establishes same_graph for EVERY record
    (it is validated, not proved), jit/XLA, floats off the lattice. *)
 From Coq Require Import List Arith ZArith Bool.
-From Rex Require Import KahnL AsyncModel2 AsyncStable ConflInv RexDet AsyncLaws AsyncLaws2 AsyncLaws3 AsyncLaws4 CompiledModel WindowSpec WindowPush RunnerSym CheckSym Dataflow Replay AsyncDataflow ReplayAsync ExportWindows ExportReplay BufferSufficient Capstone ToTimings ToTimingsLaws Capstone2.
+From Rex Require Import KahnL AsyncModel2 AsyncStable ConflInv RexDet AsyncLaws AsyncLaws2 AsyncLaws3 AsyncLaws4 CompiledModel WindowSpec WindowPush RunnerSym CheckSym Dataflow Replay AsyncDataflow ReplayAsync ExportWindows ExportReplay BufferSufficient Capstone ToTimings ToTimingsLaws ToTimingsExtra Capstone2 Capstone3.
 Open Scope Z_scope.
 
 (* uniqueness of solutions of the dataflow equations: two traces over the same windowed graph, step function and initial values agree wherever both are defined *)
@@ -153,4 +153,14 @@ Print Assumptions C01_compiled_replay_from_partitioner_hyps.
 Theorem C01_compiled_replay_from_partitioner_example : forall x1 x2 : Z * Z, T_a exG exS 1%nat 2 = Some x1 -> Tc (export exG exS (to_timings ex_I0 ex_tmpl ex_M) 2 3 1) (2 :: 1 :: nil) 0 3 1%nat 2 = Some x2 -> x1 = x2.
 Proof. exact @ex2_capstone. Qed.
 Print Assumptions C01_compiled_replay_from_partitioner_example.
+
+(* the same with extra_ok derived too (ToTimingsExtra.to_timings_extra_ok): what is assumed about the partitioner is the decidable contract check_mono + tmpl_ok + sup_covered (evaluated on every instance: CHECKMONO / TMPLOK / SUPCOV), plus canonical windows of the executed cells (sched_ok) and ring sizes >= buffer_need *)
+Theorem C01_compiled_replay_from_partitioner_contract : forall (G : cfg) (s : state) (tmpl : list (nat * nat)) (M : list mentry) (ngen nparts sup : nat) (sizes : list Z) (n : nat), let I0 := export G s nil ngen nparts sup in let I := export G s (to_timings I0 tmpl M) ngen nparts sup in reach G s -> check_mono I0 tmpl M = true -> tmpl_ok I0 tmpl = true -> sup_covered I0 M = true -> sched_ok I 0 n = true -> (forall c : nat, (c < length (i_conns I))%nat -> buffer_need I c <= size_of sizes (k_out (conn I c))) -> (n <= nparts)%nat -> forall (m : nat) (k : Z) (x1 x2 : Z * Z), T_a G s m k = Some x1 -> Tc I sizes 0 n m k = Some x2 -> x1 = x2.
+Proof. exact @compiled_replay_from_partitioner_contract. Qed.
+Print Assumptions C01_compiled_replay_from_partitioner_contract.
+
+(* non-vacuity of the partitioner contract on the two-node example *)
+Theorem C01_compiled_replay_from_partitioner_contract_hyps : check_mono ex_I0 ex_tmpl ex_M = true /\ tmpl_ok ex_I0 ex_tmpl = true /\ sup_covered ex_I0 ex_M = true.
+Proof. exact @ex3_hyps. Qed.
+Print Assumptions C01_compiled_replay_from_partitioner_contract_hyps.
 
